@@ -45,6 +45,13 @@ def templates(cfg):
     T("int_to_float64_to_string", lambda p, t: t >> p.mutate(y=t.a.cast(p.Float64()).cast(p.String())), int_bound=1000)
     T("float_to_string", lambda p, t: t >> p.mutate(y=t.f.cast(p.String())), int_bound=100)
     T("float_to_string_concat", lambda p, t: t >> p.mutate(y=t.f.cast(p.String()) + "|" + t.a.cast(p.String())), int_bound=100)
+    # float -> string outside the quarter-dyadic domain: 16-17 significant digits, exponents, -0.0
+    # (the text is produced by native formatting code of the engines: concrete differential only)
+    def gen_wide(rng):
+        pool = [1 / 3, 0.1 + 0.2, 1e15, 1e16, 123456789012345678.0, 1e-5, 1e-7, -0.0, float(2**53), 2.5, -1.75, 1e6]
+        return {"t": [{"a": i, "f": rng.choice(pool), "p": True} for i in range(rng.randint(1, 3))]}
+
+    T("float_to_string_wide", lambda p, t: t >> p.mutate(y=t.f.cast(p.String())), concrete_gen=gen_wide)
     T("cast_in_when", lambda p, t: t >> p.mutate(y=p.when(t.p).then(t.f.cast(p.Int64())).otherwise(t.a)))
     T("cast_of_when", lambda p, t: t >> p.mutate(y=p.when(t.p).then(t.f).otherwise(t.a).cast(p.Int64())))
     T("cast_group_key", lambda p, t: t >> p.mutate(k=t.f.cast(p.Int64())) >> p.group_by(p.C.k) >> p.summarize(n=p.count()))
